@@ -266,7 +266,7 @@ PIECEWISE = [
      'log(1 + exp(x)): exp(x) below -37 (relative error < exp(-37)), exact in between, x + exp(-x) up to 33.3 (the float64 nearest to it, as in the code), x above (error < exp(-33.3)); receiver == operand is not claimed'),
 ]
 out.append('// composite operations (jet-level symbolic execution over the proved primitives)')
-out.append('//@ for $R,$T in (Real64,@), (Real32,+)')
+out.append('//@ for $R,$T in (Real64,@), (Real32,@)')
 out.append('//@ propsdefault C01$T C02$T C08$T C09$T')
 for name, (f, req) in COMP1.items():
     jetblock(name, f, req, False)
@@ -289,7 +289,7 @@ out.append('')
 RECV = '($S)'
 VALUEONLY = True
 out.append('// the same composites on the plain float scalars (value only)')
-out.append('//@ for $S,$T in (Float64,@), (Float32,+)')
+out.append('//@ for $S,$T in (Float64,@), (Float32,@)')
 out.append('//@ propsdefault C02$T C09$T')
 for name, (f, req) in COMP1.items():
     jetblock(name, f, req, False)
